@@ -52,3 +52,15 @@ func printAll(in <-chan *ast.Root) {
 		r.Accept(p)
 	}
 }
+
+var depth int
+
+// bad (globals-assigned): the short declaration makes a local; the package-level depth stays 0 for ever
+func configure(s string) {
+	depth, err := parseDepth(s)
+	_, _ = depth, err
+}
+
+func parseDepth(s string) (int, error) { return len(s), nil }
+
+func limit() int { return depth * 2 }
